@@ -24,11 +24,14 @@ ALPHABET = ["a", " ", "\t", "'", '"', "\\", "$", "*", ";", "é"]
 K_RETOK = "value-contains-whitespace-quote-or-backslash-retokenised"
 K_BRACE = "value-contains-brace-in-templated-argstr-formatted-twice"
 K_BRACKET = "square-bracket-in-value-next-to-space-or-comma-eaten-by-argstr-cleanup"
+K_STRIP = "unicode-white-space-at-the-edge-of-a-templated-argument-stripped"
 
 
 # further characters a shell-like tokeniser may treat specially (comment, pipe, redirect, grouping,
 # history, glob, brace, assignment, newline ...): each alone and surrounded by / next to ordinary letters
-EXTRA = ["#", "|", "&", "<", ">", "(", ")", "!", "~", "{", "}", "[", "]", "?", "=", "%", "@", ":", ",", "`", "^", "\n", "-", "+"]
+# white space that is NOT white space for a POSIX shell tokeniser (str.split() / str.isspace() treat it as such)
+UNICODE_SPACE = ["\x0b", "\x0c", "\x1c", "\x85", "\xa0", "\u2003", "\u2028", "\u3000"]
+EXTRA = UNICODE_SPACE + ["#", "|", "&", "<", ">", "(", ")", "!", "~", "{", "}", "[", "]", "?", "=", "%", "@", ":", ",", "`", "^", "\n", "-", "+"]
 
 
 def strings(maxlen=3):
@@ -105,6 +108,21 @@ def classify(case, vals, got, exp):
         and any(isinstance(x, list) and _cleanup(" ".join(map(str, x))).split(" ") == got for x in exp)
     ):
         return K_BRACKET
+    # fourth narrow class: argstr_formatting() ends with `.strip()`, which also removes white space OTHER than blank / tab /
+    # newline (vertical tab, form feed, U+001C, U+0085, U+00A0, U+2003, U+2028, U+3000 ...) when a value puts it at the
+    # edge of the formatted argstr; everything else of the vector is as documented
+    def _stripped(x):
+        t = " ".join(map(str, x[1:])).strip()
+        return [x[0]] + (t.split(" ") if t else [])
+
+    if (
+        templated
+        and any(e and ((e[0].isspace() and e[0] not in S.RETOKENISE_CHARS) or (e[-1].isspace() and e[-1] not in S.RETOKENISE_CHARS)) for e in elems)
+        and not any(set(e) & S.RETOKENISE_CHARS for e in elems)
+        and isinstance(got, list)
+        and any(isinstance(x, list) and len(x) >= 1 and _stripped(x) == got for x in exp)
+    ):
+        return K_STRIP
     if not any(set(e) & S.RETOKENISE_CHARS for e in elems):
         return None
     return K_RETOK if S.only_tokeniser_damage(got, exp) else None
@@ -196,7 +214,7 @@ def run(ctx):
     with Runner(ctx, procs=ctx.pick(8, 16)) as R:
         dom = ctx.domain(
             "alphabet-strings-in-placements",
-            bound=f"all strings of length 1..3 over the 10-character alphabet plus, for each of {len(EXTRA)} further shell-special characters c, the strings c, ac, ca, aca, cc, acaca ({len(allstr)} strings) x {len(PLACEMENTS)} placements ({', '.join(PLACEMENTS)})",
+            bound=f"all strings of length 1..3 over the 10-character alphabet plus, for each of {len(EXTRA)} further shell-special or Unicode-white-space characters c, the strings c, ac, ca, aca, cc, acaca ({len(allstr)} strings) x {len(PLACEMENTS)} placements ({', '.join(PLACEMENTS)})",
             rule="one case per (placement, string); non-trivial = the string contains a character other than 'a'",
             exhaustive=True,
         )
